@@ -13,6 +13,15 @@ import (
 	"verifmc/engine"
 )
 
+// dbValue is what database/sql does with a query argument: a value of the type is a driver.Valuer
+// (decided at run time, so that the check builds whatever the receiver kind of Value() is).
+func dbValue(v interface{}) (driver.Value, error) {
+	if val, ok := v.(driver.Valuer); ok {
+		return val.Value()
+	}
+	return nil, fmt.Errorf("a value of type %T is not a driver.Valuer: it cannot be passed as a query argument", v)
+}
+
 func init() { register("C11", "exploration", runC11) }
 
 var c11NwkIDBits = [8]uint{6, 6, 9, 11, 12, 13, 15, 17}
@@ -196,7 +205,7 @@ func runC11(r *engine.Run) {
 			func(s []byte) (interface{}, error) { var v lorawan.EUI64; err := v.UnmarshalText(s); return v, err },
 			func(v interface{}) ([]byte, error) { return v.(lorawan.EUI64).MarshalBinary() },
 			func(b []byte) (interface{}, error) { var v lorawan.EUI64; err := v.UnmarshalBinary(b); return v, err },
-			func(v interface{}) (driver.Value, error) { return v.(lorawan.EUI64).Value() },
+			dbValue,
 			func(src interface{}) (interface{}, error) { var v lorawan.EUI64; err := v.Scan(src); return v, err },
 			func(v interface{}) []byte { x := v.(lorawan.EUI64); return x[:] }},
 		{"DevAddr", 4,
@@ -205,7 +214,7 @@ func runC11(r *engine.Run) {
 			func(s []byte) (interface{}, error) { var v lorawan.DevAddr; err := v.UnmarshalText(s); return v, err },
 			func(v interface{}) ([]byte, error) { return v.(lorawan.DevAddr).MarshalBinary() },
 			func(b []byte) (interface{}, error) { var v lorawan.DevAddr; err := v.UnmarshalBinary(b); return v, err },
-			func(v interface{}) (driver.Value, error) { return v.(lorawan.DevAddr).Value() },
+			dbValue,
 			func(src interface{}) (interface{}, error) { var v lorawan.DevAddr; err := v.Scan(src); return v, err },
 			func(v interface{}) []byte { x := v.(lorawan.DevAddr); return x[:] }},
 		{"NetID", 3,
@@ -214,7 +223,7 @@ func runC11(r *engine.Run) {
 			func(s []byte) (interface{}, error) { var v lorawan.NetID; err := v.UnmarshalText(s); return v, err },
 			func(v interface{}) ([]byte, error) { return v.(lorawan.NetID).MarshalBinary() },
 			func(b []byte) (interface{}, error) { var v lorawan.NetID; err := v.UnmarshalBinary(b); return v, err },
-			func(v interface{}) (driver.Value, error) { return v.(lorawan.NetID).Value() },
+			dbValue,
 			func(src interface{}) (interface{}, error) { var v lorawan.NetID; err := v.Scan(src); return v, err },
 			func(v interface{}) []byte { x := v.(lorawan.NetID); return x[:] }},
 		{"AES128Key", 16,
@@ -227,7 +236,7 @@ func runC11(r *engine.Run) {
 				err := v.UnmarshalBinary(b)
 				return v, err
 			},
-			func(v interface{}) (driver.Value, error) { return v.(lorawan.AES128Key).Value() },
+			dbValue,
 			func(src interface{}) (interface{}, error) { var v lorawan.AES128Key; err := v.Scan(src); return v, err },
 			func(v interface{}) []byte { x := v.(lorawan.AES128Key); return x[:] }},
 	}
